@@ -602,3 +602,163 @@ func (ev *seqEval) run(names []string, idx []int64) seqResult {
 	res.undecided = "evaluation did not terminate"
 	return res
 }
+
+
+// ruleAfterPos — R-AFTERPOS (C10 "never more permissive than the RFC").
+//
+// A JSON Patch evaluates the test that jd reads as a hunk's after context *before* the hunk's
+// removals, at the index the test names; the native hunk compares its after context *after* all its
+// removals (those of coalesced ops included), at the hunk's index. The two look at the same element
+// exactly when the test sits at index + number of removals — which is where RenderPatch puts it.
+// Inside the context reader the after test's index is only compared with its neighbours through
+// inequalities, and the number of removals is not known there (later pairs are coalesced into the
+// hunk by the driver). So the reader as a whole must, before it hands out a diff, compare for
+// (in)equality a value derived from a hunk's index and the number of its removals with the index of
+// the after test, on every path to a successful return.
+//
+// Decided structurally: (1) some function reached from the exported reader contains an == / !=
+// whose operands' backward slice holds both `len(<hunk>.Remove)` and a path element asserted to the
+// index kind; (2) in the exported reader every return of a diff that is not the nil constant, with a
+// nil error, is dominated by that comparison (or by the call that reaches it). What is NOT decided:
+// that the compared index really is the one of the after test (a value-flow question across the
+// three readers) — the seeded reverts and the R-PATCHSEQ table cover the obvious ways to get that
+// wrong.
+func ruleAfterPos(w *World, r *Report, pkg *ssa.Package) {
+	const rule = "R-AFTERPOS"
+	drv := w.FuncOpt(pkg, "ReadPatchString")
+	key := "v2.ReadPatchString:after-test-position"
+	if drv == nil || drv.Blocks == nil {
+		r.Ok(rule, key, "-", "no ReadPatchString: this rule makes no claim (not decided)")
+		return
+	}
+	r.Fn(fnName(drv))
+	// does the reader coalesce ops into hunks and read after context at all?
+	storesAfter := false
+	for _, fn := range w.FuncsOf(pkg) {
+		if fn.Blocks == nil || !strings.Contains(strings.ToLower(fn.Name()), "patch") {
+			continue
+		}
+		allInstrs(fn, func(in ssa.Instruction) {
+			if st, ok := in.(*ssa.Store); ok {
+				if fa, ok := st.Addr.(*ssa.FieldAddr); ok && fieldName(fa.X.Type(), fa.Field) == "After" {
+					if _, isParam := fa.X.(*ssa.Parameter); isParam {
+						storesAfter = true
+					}
+				}
+			}
+		})
+	}
+	if !storesAfter {
+		r.Ok(rule, key, w.Pos(drv.Pos()), "no reader stores an after context through a hunk pointer: this rule makes no claim (not decided)")
+		return
+	}
+	// (1) the comparison
+	isTie := func(bo *ssa.BinOp) bool {
+		if bo.Op != token.EQL && bo.Op != token.NEQ {
+			return false
+		}
+		hasLenRemove, hasIndexAssert := false, false
+		seen := map[ssa.Value]bool{}
+		var walk func(v ssa.Value, depth int)
+		walk = func(v ssa.Value, depth int) {
+			if v == nil || seen[v] || depth > 40 {
+				return
+			}
+			seen[v] = true
+			switch x := v.(type) {
+			case *ssa.Call:
+				if b, ok := x.Call.Value.(*ssa.Builtin); ok && b.Name() == "len" {
+					arg := x.Call.Args[0]
+					switch y := arg.(type) {
+					case *ssa.Field:
+						if fieldName(y.X.Type(), y.Field) == "Remove" {
+							hasLenRemove = true
+						}
+					case *ssa.UnOp:
+						if fa, ok := y.X.(*ssa.FieldAddr); ok && fieldName(fa.X.Type(), fa.Field) == "Remove" {
+							hasLenRemove = true
+						}
+					}
+				}
+			case *ssa.TypeAssert:
+				if typeName(x.AssertedType) == "PathIndex" {
+					hasIndexAssert = true
+				}
+			case *ssa.UnOp:
+				if al, ok := x.X.(*ssa.Alloc); ok && x.Op == token.MUL {
+					for _, ref := range *al.Referrers() {
+						if st, ok := ref.(*ssa.Store); ok && st.Addr == ssa.Value(al) {
+							walk(st.Val, depth+1)
+						}
+					}
+				}
+			}
+			if in, ok := v.(ssa.Instruction); ok {
+				for _, op := range in.Operands(nil) {
+					if *op != nil {
+						walk(*op, depth+1)
+					}
+				}
+			}
+		}
+		walk(bo.X, 0)
+		walk(bo.Y, 0)
+		return hasLenRemove && hasIndexAssert
+	}
+	ties := map[*ssa.Function][]*ssa.BinOp{}
+	seenF := map[*ssa.Function]bool{}
+	var reach func(fn *ssa.Function, depth int)
+	reach = func(fn *ssa.Function, depth int) {
+		if fn == nil || fn.Blocks == nil || seenF[fn] || depth > 4 || fnPkg(fn) != pkg.Pkg {
+			return
+		}
+		seenF[fn] = true
+		allInstrs(fn, func(in ssa.Instruction) {
+			switch x := in.(type) {
+			case *ssa.BinOp:
+				if isTie(x) {
+					ties[fn] = append(ties[fn], x)
+				}
+			case *ssa.Call:
+				reach(staticCallee(x), depth+1)
+			}
+		})
+	}
+	reach(drv, 0)
+	if len(ties) == 0 {
+		r.Bad(rule, key, w.Pos(drv.Pos()), "nothing in the JSON Patch reader compares the index at which the patch tested a hunk's after context with the hunk's index plus the number of its removals: the patch evaluates that test before the removals at the index it names, the hunk compares after the removals at its own index, so a test placed elsewhere (or removals coalesced into the hunk afterwards) makes jd accept a patch that RFC 6902 evaluation rejects")
+		return
+	}
+	// (2) domination of the successful returns of the exported reader
+	var gates []*ssa.BasicBlock
+	for _, bo := range ties[drv] {
+		gates = append(gates, bo.Block())
+	}
+	allInstrs(drv, func(in ssa.Instruction) {
+		if c, ok := in.(*ssa.Call); ok {
+			if g := staticCallee(c); g != nil && len(ties[g]) > 0 {
+				gates = append(gates, c.Block())
+			}
+		}
+	})
+	bad := ""
+	nRet := 0
+	for _, ret := range returnsOf(drv) {
+		if len(ret.Results) != 2 || !isNilConst(ret.Results[1]) || isNilConst(ret.Results[0]) {
+			continue
+		}
+		nRet++
+		dom := false
+		for _, g := range gates {
+			if g.Dominates(ret.Block()) {
+				dom = true
+			}
+		}
+		if !dom {
+			bad = w.Pos(ret.Pos())
+		}
+	}
+	r.Check(bad == "" && nRet > 0, rule, key, w.Pos(drv.Pos()),
+		fmt.Sprintf("the %d successful return(s) of a diff lie behind the comparison of the after test's index with index + removals", nRet),
+		"a diff is returned (at "+bad+") without the comparison of the after test's index with the hunk's index plus its removals having been made: a patch whose after test sits elsewhere is accepted although RFC 6902 evaluation rejects it")
+}
